@@ -35,6 +35,9 @@ static std::string get_readable_ip_address(std::string& wire_ip, bool ipv6)
         buflen = INET_ADDRSTRLEN + 4;
     }
 
+    if (wire_ip.size() != (ipv6 ? 16u : 4u))
+        return wire_ip;
+
     char addrBuf[buflen];
     auto ret = inet_ntop(ipv, wire_ip.data(), addrBuf, sizeof(addrBuf));
 
@@ -63,7 +66,7 @@ static std::string get_readable_dname(std::string& wire_dname)
 
     while (label_len != 0) {
         size += label_len;
-        if (size > dname.size())
+        if (size > dname.size() || pos >= dname.size())
             return wire_dname;
 
         labels++;
